@@ -180,6 +180,10 @@ def mon_requests_responses(ctx, conn, skip_sids=(), require_complete=True, intac
         if c.startswith("#expect dispatch("):
             sid = int(c[len("#expect dispatch("):].split(",", 1)[0])
             expect[sid] = c[len("#expect "):]
+    invalid = set()  # streams whose header block the generator made undecodable on purpose
+    for _, c in conn.comments:
+        if c.startswith("#invalid-block "):
+            invalid.add(int(c.split()[1]))
     dispatched = collections.Counter()
     resp = {}        # sid -> dict(status, fields, kind, body)
     got = collections.defaultdict(lambda: dict(h=[], data=b"", dlen=0, es=0, after_es=0, digests=[]))
@@ -194,6 +198,8 @@ def mon_requests_responses(ctx, conn, skip_sids=(), require_complete=True, intac
             if name == "dispatch":
                 sid = int(args.split(",", 1)[0])
                 dispatched[sid] += 1
+                if sid in invalid:
+                    viol(ctx, conn, "request-from-undecodable-header-block-dispatched", dict(sid=sid, got="dispatch(" + args[:200] + ")"))
                 if sid in expect and sid not in skip_sids and "dispatch(" + args + ")" != expect[sid]:
                     viol(ctx, conn, "request-not-intact", dict(sid=sid, got="dispatch(" + args + ")", want=expect[sid]), known_class=intact_class)
             elif name == "H":
